@@ -8,6 +8,21 @@ CLAIMED = {
    note='Partial for runtime behaviour: acceptor/responder threads, sockets, lock poisoning (449), tiny_http parsing of broken requests are modelled-not-verified; trusted: Coq kernel, extraction (ExtrOcamlBasic), OCaml driver, Rust harness, regex translator.',
    technique='Coq proof (all histories, induction over operation lists) + source-derived tables + differential correspondence on real HTTP',
    design='5/C14'),
+ 'C11': dict(
+   text='Coq theorem over an executable model of mesh_to_bin / bin_to_mesh: for EVERY supported mesh (five topologies, any subset of the eight attributes, any vertex count incl. zero with no bound, any f32 bit pattern, no/u16/u32 indices, no or weak morph handle, any names) encoding succeeds and decoding returns exactly that mesh (C11_mesh_lossless); a strong morph handle, outside the supported set, is dropped and nothing else changes (C11_strong_handle_dropped). Built on a byte-exact Coq model of lz4-compression 0.7 with its round trip proved for all inputs and a Coq model of bincode with decode(encode v ++ rest) = (v, rest) proved for all schemas. The model is DEFINED over tables regenerated from src/networking/assets/mesh_serde.rs on every run (MeshData field order and types, which part of the Mesh feeds which field, which field is written where and in which order on decode, both topology match blocks); side conditions on those tables (tables inverse, schema well formed, every field typed like its source, every part written from the field it was read into) are discharged by computation on every run. Differential runs: real mesh_to_bin bytes = model bytes and real bin_to_mesh = model decode on random meshes, plus the oracle decoded = original on the real output.',
+   note='Trusted / not proved: that the model mirrors the Rust text beyond what the translator extracts (anchored regexes, fail closed) and the correspondence samples; hand-written Bevy facts (vertex format of the eight ATTRIBUTE_* constants, serde layout of AssetId<Image>); Coq kernel, extraction (ExtrOcamlBasic), OCaml driver, Rust harness. Meshes carrying other attributes or other value formats are outside the modelled domain. The statement pins the wire layout: a consistent reordering of MeshData fields is reported as a broken obligation without a failing input.',
+   technique='Coq proof (all meshes, structural; lz4 round trip + bincode round trip) over source-derived tables + differential correspondence on the real codec',
+   design='5/C11'),
+ 'C12': dict(
+   text='Messages: Coq theorem over a model of the serde/bincode wire form of `Message` DEFINED over the variant/field/type table regenerated from src/proto.rs and src/lib.rs on every run: every message of all twelve kinds with any field values encodes, and decoding the bytes followed by anything returns that message (C12_message_roundtrip); equal bytes imply equal messages. Components and materials: for EVERY wire schema (any nesting of structs, tuple structs, enums, options, lists, arrays, maps, strings, chars, integers/floats of every width) and every value of it, the ReflectSerializer envelope decodes to the same type path and value, leaves exactly the trailing bytes, and re-encodes to the same bytes (C12_component_roundtrip, C12_component_bytes_determine_value, decoder accepts only encodings). Differential runs: real bincode / reflect_to_bin bytes = model bytes and real decode = model decode, with the wire schema of each component type read from the real TypeRegistry; oracle on the real output: decoded value = original, re-encoding = same bytes, FromReflect rebuilds an equal value, reflect_partial_eq holds.',
+   note='Partial: that FromReflect rebuilds an EQUAL CONCRETE Rust value and that reflect_partial_eq holds are statements about macro-generated Rust code and are only CHECKED on generated values (REFLCHK flags), not proved. Observed and encoded narrowly in the oracle: reflect_partial_eq is false when a float field holds a NaN (bit pattern still preserved) and for a component that IS a Handle<..> (bin_to_reflect leaves non-struct values dynamic and Handle compares only with a concrete Handle). Not modelled: UTF-8 validation of strings by the real decoder (the model decoder accepts a superset). Trusted: hand-written serde schemas of ReflectSerialize types (glam, Uuid, String, Name, bevy_color) in the harness, serde layouts of Uuid/String/Vec<u8>/IpAddr in the translator, Coq kernel, extraction, driver, harness, regex translator. The statement pins the wire layout of Message: a consistent reordering of variants is reported as a broken obligation without a failing input.',
+   technique='Coq proof (all schemas / all values by induction on schemas; all messages by case analysis over the generated layout) + source-derived tables + differential correspondence with registry-derived schemas',
+   design='5/C12'),
+ 'C13': dict(
+   text='Coq theorem over an executable model of image_to_bin / bin_to_image DEFINED over tables regenerated from src/networking/assets/image_serde.rs on every run (ImageData field order and types, what initialises each field, which field each argument of Image::new is taken from, both dimension match blocks): for EVERY image (u32 extents incl. zero, 1D/2D/3D, any format name, any pixel bytes of any length) encoding succeeds and decoding returns Some of exactly that image (C13_image_lossless). The TextureFormat is carried as its name on the wire; the table of all format names is regenerated from the REAL serializer on every run and proved duplicate free (finite statement over that table), so equal names are equal formats. Same lz4 and bincode theorems as C11. Differential runs: real bytes = model bytes, real decode = model decode on random images of every uncompressed format, plus the oracle decoded = original.',
+   note='Trusted / not proved: that the real TextureFormat deserializer maps a name back to the format it came from (checked on every uncompressed format by the correspondence only); the debug assertion of Image::new (data length = volume x pixel size) is not modelled, generated images satisfy it; Coq kernel, extraction, OCaml driver, Rust harness, regex translator.',
+   technique='Coq proof (all images; lz4 round trip + bincode round trip) over source-derived tables and a serializer-derived format table + differential correspondence on the real codec',
+   design='5/C13'),
 }
 PENDING = {
  'C01': 'protocol model under construction; check not built yet',
